@@ -36,7 +36,8 @@ QueriesE2 == { QAmp(<<0, 1>>), QDense(FALSE), QDense(TRUE), Q("uni"), QPtr(<<0>>
                QExp("P01", <<1>>), QExp("ZX", <<1, 0>>), QMarg(<<0>>, <<>>), QMarg(<<1>>, << <<0, 1>> >>), Q("sample") }
 \* smaller alphabet for the quick tier
 GatesE2q == { G("H", <<0>>, e0, e0), G("CX", <<0, 1>>, e0, e0), G("SWAP", <<0, 1>>, e0, e0), G("IDEN", <<1>>, e0, e0),
-              GP("RX", <<0>>, e0, <<2>>), GP("U1", <<1>>, e0, <<1>>), G("T", <<1>>, <<0>>, e0), G("R2A", <<1, 0>>, e0, e0) }
+              GP("RX", <<0>>, e0, <<2>>), GP("U1", <<1>>, e0, <<1>>), G("T", <<1>>, <<0>>, e0), G("R2A", <<1, 0>>, e0, e0),
+              G("IDEN", <<1>>, <<0>>, e0) }
 QueriesE2q == { QAmp(<<0, 1>>), QDense(FALSE), Q("uni"), QPtr(<<0>>), QPtr(<<1, 0>>),
                 QExp("P01", <<1>>), QMarg(<<1>>, << <<0, 1>> >>), Q("sample") }
 
@@ -53,7 +54,7 @@ GatesE3 == { G("H", <<0>>, e0, e0), G("T", <<2>>, e0, e0), G("CX", <<0, 2>>, e0,
              G("SWAP", <<0, 2>>, e0, e0), G("SWAP", <<1, 2>>, e0, e0), G("IDEN", <<1>>, e0, e0),
              GP("RX", <<1>>, e0, <<2>>), G("FSIM", <<1, 0>>, e0, <<1, 3>>), G("CCX", <<2, 0, 1>>, e0, e0),
              G("X", <<1>>, <<2, 0>>, e0), G("SWAP", <<0, 1>>, <<2>>, e0), G("R2A", <<2, 0>>, e0, e0),
-             GP("RZ", <<1>>, <<0>>, <<2>>) }
+             GP("RZ", <<1>>, <<0>>, <<2>>), G("IDEN", <<0>>, <<2>>, e0) }
 QueriesE3 == { QAmp(<<1, 0, 1>>), QDense(FALSE), QPtr(<<0>>), QPtr(<<2>>), QPtr(<<2, 0>>), QPtr(<<1>>),
                QExp("P01", <<1>>), QExp("YZ", <<0, 2>>), QMarg(<<2>>, << <<0, 1>> >>), QMarg(<<1, 0>>, <<>>), Q("sample") }
 
